@@ -127,6 +127,27 @@ Theorem Deposit_interest_cancels : forall c issuer mk z z',
 Proof. exact deposit_interest_cancels. Qed.
 Print Assumptions Deposit_interest_cancels.
 
+(** For an implementation that refuses zones without exactly one issuer (proposed fix D22, model
+    [deposit_generate_checked]) the issuer hypothesis is discharged by success itself. *)
+Theorem Deposit_interest_cancels_checked : forall c issuer mk z z',
+  deposit_generate_checked c issuer mk z = Ok z' ->
+  has_substring "__" (int_name c) = false ->
+  (forall s, List.In s z -> dep_part c issuer s = true -> int_fresh c s = true) ->
+  forall (v vprev : string -> R) (bv bvp : string -> string -> R),
+  lag_link v vprev (deposit_lags c issuer z) ->
+  (forall s', List.In s' z' -> (dep_issuer issuer s' = true -> holds vprev bvp s' (sup_name c)) /\
+                               (sid s' = mk -> holds vprev bvp s' (dem_name c))) ->
+  (forall s', List.In s' z' -> dep_part c issuer s' = true -> holds v bv s' (int_name c)) ->
+  sumR (booked c issuer v) z = 0 /\ F_total v z' = F_total v z.
+Proof. exact deposit_interest_cancels_checked. Qed.
+Print Assumptions Deposit_interest_cancels_checked.
+
+Theorem Money_checked_has_issuer : forall c issuer mk z z',
+  money_generate_checked c issuer mk z = Ok z' ->
+  money_generate c issuer mk z = Ok z' /\ exists i, List.In i z /\ money_issuer issuer i = true.
+Proof. exact money_generate_checked_ok. Qed.
+Print Assumptions Money_checked_has_issuer.
+
 (* ================================================================== *)
 (** * GenerateAssetWeighting *)
 
